@@ -50,11 +50,16 @@ Definition read_be (n : nat) : R Z :=
   fun bs => if (length bs <? n)%nat then DErr
             else DOk (be_val (firstn n bs)) (skipn n bs).
 
-Fixpoint read_rep {A} (n : nat) (r : R A) : R (list A) :=
-  match n with
-  | O => ret []
-  | S k => x <- r ;; xs <- read_rep k r ;; ret (x :: xs)
-  end.
+(* (sections keep the element codec outside the fix, so that callers may recurse through it) *)
+Section ReadRep.
+  Context {A : Type} (r : R A).
+  Fixpoint read_rep_ (n : nat) : R (list A) :=
+    match n with
+    | O => ret []
+    | S k => x <- r ;; xs <- read_rep_ k ;; ret (x :: xs)
+    end.
+End ReadRep.
+Definition read_rep {A} (n : nat) (r : R A) : R (list A) := read_rep_ r n.
 
 (* Go's  for i := 0; i < count; i++ { read element }  for element decoders that consume at least one
    byte when they succeed: at most [zlen bs] iterations can succeed, so the loop is unrolled
@@ -82,11 +87,14 @@ Definition wapp (a b : W) : W :=
   end.
 Notation "a +++ b" := (wapp a b) (at level 60, right associativity).
 Definition wguard (b : bool) : W := if b then Ok [] else Err.
-Fixpoint wlist {A} (f : A -> W) (l : list A) : W :=
-  match l with
-  | [] => Ok []
-  | x :: r => f x +++ wlist f r
-  end.
+Section WList.
+  Context {A : Type} (f : A -> W).
+  Fixpoint wlist (l : list A) : W :=
+    match l with
+    | [] => Ok []
+    | x :: r => f x +++ wlist r
+    end.
+End WList.
 
 (* lengths (Go's LengthOf*/EncodedLength functions): result Z *)
 Definition L := result Z.
@@ -96,11 +104,14 @@ Definition ladd (a b : L) : L :=
   | Err => Err
   end.
 Notation "a +l+ b" := (ladd a b) (at level 60, right associativity).
-Fixpoint llist {A} (f : A -> L) (l : list A) : L :=
-  match l with
-  | [] => Ok 0
-  | x :: r => f x +l+ llist f r
-  end.
+Section LList.
+  Context {A : Type} (f : A -> L).
+  Fixpoint llist (l : list A) : L :=
+    match l with
+    | [] => Ok 0
+    | x :: r => f x +l+ llist r
+    end.
+End LList.
 
 (* ---------------- lemmas ---------------- *)
 
@@ -172,7 +183,7 @@ Section ReadCount.
     (forall x rest', In x l -> r (enc x ++ rest') = DOk (g x) rest') ->
     read_rep (length l) r (concat (map enc l) ++ rest) = DOk (map g l) rest.
   Proof.
-    revert rest. induction l as [|x l IH]; intros rest H; cbn [length read_rep map concat].
+    revert rest. induction l as [|x l IH]; intros rest H; unfold read_rep in *; cbn [length read_rep_ map concat].
     - reflexivity.
     - rewrite <- app_assoc. unfold bind at 1. rewrite H by (left; reflexivity).
       unfold bind at 1. rewrite IH by (intros; apply H; right; assumption). reflexivity.
